@@ -1,9 +1,9 @@
 (* Extraction for the `front` cluster (C12, C11). ExtrOcamlBasic only. *)
 From Coq Require Import Extraction ExtrOcamlBasic ZArith NArith.
-From LV Require Import Model.Frontend Model.PoolSM.
+From LV Require Import Model.Frontend Model.FrontendSpec Model.PoolSM.
 Extraction Language OCaml.
 Separate Extraction
   BinInt.Z.add BinInt.Z.compare BinNat.N.add
   Frontend.parse_query Frontend.parse_and_normalize Frontend.output_names
-  Frontend.output_slice Frontend.combined_limit
+  Frontend.output_slice Frontend.combined_limit FrontendSpec.parser_output
   PoolSM.run_checked PoolSM.run.
